@@ -271,10 +271,18 @@ def r5_dimension_equality(ctx):
     ctx.check(ok, C03.FR, "Fraction.__eq__", "exponents are compared by value (6/2 equals 3)", detail=det)
 
 
+def r6_readonly_conversion(ctx):
+    """x*f(u)/f(v) for *every* read of a quantity in another unit only if a conversion does not write to the magnitude
+    it converts (array magnitudes are shared objects): effect analysis shared with C07.R1."""
+    from . import C07 as _C07
+    _C07.r1_no_operand_mutation(ctx)
+
+
 RULES = [
     ("C04.R1", "factor form x*m(u)/m(v) (linear) and (1/(x*m(u)))/m(v) (reciprocal); round trip, path independence and involution as normal-form identities", r1_factor_form),
     ("C04.R2", "rule selection table: same dims -> linear, negated dims -> reciprocal, bare number to rad -> linear, else refuse; first claiming type, none => error", r2_rule_selection),
     ("C04.R3", "the standard type is tried last; every registered type subclasses UnitType and defines _istype", r3_type_order),
     ("C04.R4", "to(): no may-raise statement after a store to self on any path (failure atomicity); conversion direction and adoption of units", r4_atomic_to),
+    ("C04.R6", "a conversion (value(), arithmetic with mixed units, comparison) leaves the converted operand unchanged, so repeated conversions agree (effect analysis shared with C07.R1)", r6_readonly_conversion),
     ("C04.R5", "dimension vectors are compared component-wise by value (fraction cross-multiplication)", r5_dimension_equality),
 ]
